@@ -78,12 +78,9 @@ def _run(ctx):
             ctx.sample({"kind": "recorded rejected IPAddress::FromString (validated by TLC)", "event": ev})
     behs = ctx.tlc_gen(SPEC, "Gen_NetAddr.tla", "Gen_NetAddr_slots.cfg" if quick else "Gen_NetAddr_slots_thorough.cfg", jvm=ec.JVM)
     behs.sort(key=lambda b: json.dumps(b, sort_keys=True))
-    try:
-        deep = ctx.tlc_gen(SPEC, "Gen_NetAddr.tla", "Gen_NetAddr_sim.cfg", simulate=(1000000, 12), timeout=8 if quick else 40, jvm=ec.JVM,
-                           limit=1500 if quick else 30000, workers=2)
-    except vlib.Infra:            # a loaded machine: the JVM was not up within the window - give it more time once
-        deep = ctx.tlc_gen(SPEC, "Gen_NetAddr.tla", "Gen_NetAddr_sim.cfg", simulate=(1000000, 12), timeout=60, jvm=ec.JVM,
-                           limit=1500 if quick else 30000, workers=2)
+    deep = []
+    if not quick:                                           # random deeper walks of the abstract machine (not reproducible per seed: thorough only)
+        deep = ctx.tlc_gen(SPEC, "Gen_NetAddr.tla", "Gen_NetAddr_sim.cfg", simulate=(1000000, 12), timeout=60, jvm=ec.JVM, limit=30000, workers=2)
     ctx.notes.append("Gen_NetAddr slots: %d operation sequences of length %d over 2 slots (exhaustive, BFS) + %d random sequences of length 12 "
                      "over 3 slots" % (len(behs), 3 if quick else 4, len(deep)))
     ctx.sample({"kind": "SockAddr model behaviour replayed on the real class", "script": behs[len(behs) // 2]})
